@@ -30,6 +30,12 @@ func mkCase(proto string, limit, pre int, thr []thrSpec, sched []int) string {
 	return sb.String()
 }
 
+// mkCaseDead: the client also has `dead` revoked entries in its index.
+func mkCaseDead(proto string, limit, pre, dead int, thr []thrSpec, sched []int) string {
+	c := mkCase(proto, limit, pre, thr, sched)
+	return strings.Replace(c, fmt.Sprintf(" pre %d thr ", pre), fmt.Sprintf(" pre %d dead %d thr ", pre, dead), 1)
+}
+
 func mkFree(proto string, limit, pre, n int) string {
 	return fmt.Sprintf("free p %s lim %d pre %d n %d", proto, limit, pre, n)
 }
@@ -41,7 +47,7 @@ func mkFreeIt(proto string, limit, pre, n, iters int) string {
 // C': stress — the same boundary race repeated on fresh state (windows no gate can reach:
 // Load..CompareAndSwap of the mapping handler, the lock hand-over of the registries).
 func genStress(tier string, emit func(string)) {
-	iters := 3000
+	iters := 2000
 	if tier == "thorough" {
 		iters = 12000
 	}
@@ -73,7 +79,7 @@ func admitSteps(proto string, occ int) int {
 	return 1
 }
 
-var zu = map[string]bool{"conn": true, "ctrl": true, "ctrlx": true, "tun": true, "map": true, "mapu": true, "code": false, "mapq": false}
+var zu = map[string]bool{"conn": true, "conng": true, "ctrl": true, "ctrlx": true, "tun": true, "map": true, "mapu": true, "code": false, "mapq": false}
 
 // every sequence over {0..n-1} of the given length
 func allSchedules(n, length int, f func([]int)) {
@@ -122,7 +128,7 @@ func allInterleavings(n, steps int, f func([]int)) {
 // A: exhaustive small scope — N racing admissions at limit-1 occupancy (and at the limit, and
 // well below it), every interleaving of their atomic steps.
 func genExhaustive(tier string, emit func(string)) {
-	for _, proto := range []string{"conn", "ctrl", "tun", "map", "mapu", "code", "mapq"} {
+	for _, proto := range []string{"conn", "conng", "ctrl", "tun", "map", "mapu", "code", "mapq"} {
 		limits := []int{1, 2, 3}
 		if zu[proto] {
 			limits = []int{0, 1, 2, 3}
@@ -193,7 +199,7 @@ func genExhaustive(tier string, emit func(string)) {
 		}
 	}
 	// admissions racing with releases: 2 threads, programs over {a, r} of length 2, all interleavings
-	for _, proto := range []string{"conn", "ctrl", "tun"} {
+	for _, proto := range []string{"conn", "conng", "ctrl", "tun"} {
 		for _, limit := range []int{1, 2} {
 			for _, p0 := range []string{"ar", "aa"} {
 				for _, p1 := range []string{"a", "ar", "ra"} {
@@ -227,7 +233,7 @@ func genRacers(tier string, emit func(string)) {
 			if tier == "quick" {
 				switch {
 				case ci == 0 && ops[1] == "a" && ops[2] == "a":
-					stride = 1 // occupancy limit-2, three requests of one client: every interleaving
+					stride = 2 // occupancy limit-2, three requests of one client: every second interleaving (all in thorough)
 				case ci == 1 && ops[1] == "a" && ops[2] == "a":
 					stride = 5
 				default:
@@ -252,7 +258,7 @@ func genRacers(tier string, emit func(string)) {
 		for _, last := range []string{"a", "o"} {
 			stride := 801
 			if tier == "quick" {
-				stride = 4001
+				stride = 8009
 			}
 			thr := []thrSpec{{0, "a"}, {0, "a"}, {0, "a"}, {0, last}}
 			cnt := 0
@@ -266,7 +272,7 @@ func genRacers(tier string, emit func(string)) {
 		}
 	}
 	// the other admission protocols: 3 and 4 racers, every interleaving
-	for _, proto := range []string{"conn", "ctrl", "tun", "map", "mapu"} {
+	for _, proto := range []string{"conn", "conng", "ctrl", "tun", "map", "mapu"} {
 		for _, c := range cfgs[:4] {
 			for n := 3; n <= 4; n++ {
 				steps := admitSteps(proto, 0)
@@ -294,7 +300,7 @@ func genRacers(tier string, emit func(string)) {
 	if tier == "thorough" {
 		iters = 600
 	}
-	for _, proto := range []string{"conn", "tun", "map", "mapu", "code", "mapq"} {
+	for _, proto := range []string{"conn", "conng", "tun", "map", "mapu", "code", "mapq"} {
 		for _, n := range []int{3, 4, 8} {
 			for _, c := range []cfg{{3, 1}, {2, 0}, {2, 1}} {
 				it := iters
@@ -372,18 +378,38 @@ func genSlot(r *common.Rand, tier string, emit func(string)) {
 		}
 		emit(mkSlot(1, toks))
 	})
+	// … and with failing steps (prepare / quota / dial / RegisterTunnel errors) in the alphabet
+	alpha2 := []string{"s0", "s1", "c0", "c1", "f0", "f1"}
+	allSchedules(len(alpha2), length-1, func(s []int) {
+		toks := make([]string, len(s))
+		nf := 0
+		for i, x := range s {
+			toks[i] = alpha2[x]
+			if x >= 4 {
+				nf++
+			}
+		}
+		if nf == 0 {
+			return // enumerated above
+		}
+		emit(mkSlot(1, toks))
+	})
 	// histories: k connections whose tunnel is closed at position p of their life (0 = before the slot is
 	// taken, 1 = before RegisterTunnel, 2 = in the window before Start, 3 = after Start), then limit+1
 	// new connections are opened completely, round-robin or one after the other
 	for _, limit := range []int{1, 2, 3} {
 		for k := 1; k <= 2; k++ {
-			for p := 0; p <= 3; p++ {
+			for p := 0; p <= 5; p++ {
 				for _, rr := range []bool{false, true} {
 					var toks []string
 					for j := 0; j < k; j++ {
 						for st := 0; st < 3; st++ {
 							if st == p {
 								toks = append(toks, fmt.Sprintf("c%d", j))
+							}
+							if st == p-4 {
+								toks = append(toks, fmt.Sprintf("f%d", j)) // the injectable call of this step fails
+								break
 							}
 							toks = append(toks, fmt.Sprintf("s%d", j))
 						}
@@ -422,14 +448,83 @@ func genSlot(r *common.Rand, tier string, emit func(string)) {
 		toks := make([]string, ln)
 		for j := range toks {
 			c := r.Intn(n)
-			if r.Intn(10) < 3 {
+			if x := r.Intn(10); x < 3 {
 				toks[j] = fmt.Sprintf("c%d", c)
+			} else if x == 3 {
+				toks[j] = fmt.Sprintf("f%d", c)
 			} else {
 				toks[j] = fmt.Sprintf("s%d", c)
 			}
 		}
 		emit(mkSlot(limit, toks))
 	}
+}
+
+// A5 (coverage audit): index entries that are not active (revoked codes / mappings: read by every
+// count, must not be counted), the shipped default quotas at quota-1, racers on top of them.
+func genQuotaShapes(r *common.Rand, tier string, emit func(string)) {
+	drain := func(n, steps int, s []int) []int {
+		out := append([]int(nil), s...)
+		for rr := 0; rr < steps; rr++ {
+			for t := 0; t < n; t++ {
+				out = append(out, t)
+			}
+		}
+		return out
+	}
+	aaa := []thrSpec{{0, "a"}, {0, "a"}, {0, "a"}}
+	for _, dead := range []int{1, 3} {
+		for _, c := range [][2]int{{1, 0}, {2, 1}, {2, 0}, {3, 2}} {
+			cnt := 0
+			allInterleavings(3, 3, func(s []int) {
+				cnt++
+				if cnt%29 != 1 && tier == "quick" || cnt%3 != 1 {
+					return
+				}
+				emit(mkCaseDead("mapq", c[0], c[1], dead, aaa, drain(3, 3, s)))
+			})
+			// codes: 2 racers, bursts
+			steps := admitSteps("code", c[1]+dead+2)
+			for i := 0; i < 40; i++ {
+				left := []int{steps, steps}
+				var sched []int
+				for left[0]+left[1] > 0 {
+					t := r.Intn(2)
+					if left[t] == 0 {
+						t = 1 - t
+					}
+					sched = append(sched, t)
+					left[t]--
+				}
+				emit(mkCaseDead("code", c[0], c[1], dead, []thrSpec{{0, "a"}, {0, "a"}}, drain(2, steps, sched)))
+			}
+		}
+	}
+	// default quotas (10 codes, 50 mappings per client) one below the quota
+	for i := 0; i < 6; i++ {
+		steps := admitSteps("code", 12)
+		var sched []int
+		left := []int{steps, steps, steps}
+		for left[0]+left[1]+left[2] > 0 {
+			t := r.Intn(3)
+			if left[t] > 0 {
+				sched = append(sched, t)
+				left[t]--
+			}
+		}
+		emit(mkCase("code", 10, 9, aaa, drain(3, steps, sched)))
+		emit(mkCaseDead("code", 10, 8, 2, aaa, drain(3, steps+2, sched)))
+	}
+	cnt := 0
+	allInterleavings(3, 3, func(s []int) {
+		cnt++
+		if cnt%97 == 1 {
+			emit(mkCase("mapq", 50, 49, aaa, drain(3, 3, s)))
+			emit(mkCaseDead("mapq", 50, 48, 2, aaa, drain(3, 3, s)))
+		}
+	})
+	emit(mkFreeIt("code", 10, 9, 6, 20))
+	emit(mkFreeIt("mapq", 50, 49, 6, 20))
 }
 
 // A': random interleavings of N racing admissions at the boundary (scopes too large to enumerate).
@@ -483,7 +578,7 @@ func genRandomInterleavings(r *common.Rand, count int, emit func(string)) {
 // B: random — 1-6 threads, limits 0..5, any admissible initial occupancy, programs of admits and
 // releases, random schedules long enough to finish most programs.
 func genRandom(r *common.Rand, count int, emit func(string)) {
-	protos := []string{"conn", "conn", "ctrl", "tun", "map", "mapu", "code", "mapq", "mapq"}
+	protos := []string{"conn", "conn", "conng", "ctrl", "tun", "map", "mapu", "code", "mapq", "mapq"}
 	for i := 0; i < count; i++ {
 		proto := common.Pick(r, protos)
 		limit := r.Intn(6)
@@ -576,6 +671,7 @@ func generate(r *common.Rand, tier string, emit func(string)) {
 	genRacers(tier, emit)
 	genCtrlX(tier, emit)
 	genSlot(r, tier, emit)
+	genQuotaShapes(r, tier, emit)
 	genMultiNode(emit)
 	genStress(tier, emit)
 	if tier == "thorough" {
